@@ -40,7 +40,7 @@ def core_texts():
 
 
 def core_blobs():
-    out = [b"", b"\x00", b"\x00\x00", b"a", b"A", b"ab", b"\xff", b"\xff\x00", b"a ", b"\x80", b"a\x00"]
+    out = [b"", b"\x00", b"\x00\x00", b"a", b"A", b"ab", b"AB", b"\xff", b"\xff\x00", b"a ", b"a  ", b" ", b"\x80", b"a\x00", b"a\x00b", b"a\x00c"]
     return [("b", x) for x in out]
 
 
